@@ -47,6 +47,10 @@ func (x *Exec) step(st *State, fr *Frame, ins ssa.Instruction) ([]*State, bool) 
 	case *ssa.DebugRef:
 		return adv()
 	case *ssa.Alloc:
+		if fr.order == nil {
+			fr.order = map[ssa.Value]int{}
+		}
+		fr.order[ins] = len(fr.order) + 1
 		t := deref(ins.Type())
 		if arr, ok := types.Unalias(t).Underlying().(*types.Array); ok {
 			id := x.allocID(st)
@@ -121,7 +125,7 @@ func (x *Exec) step(st *State, fr *Frame, ins ssa.Instruction) ([]*State, bool) 
 		case *types.Slice:
 			s := xv.T
 			x.runtimeCheck(st, "index", And(Cmp(">=", i, IntLit(0)), Cmp("<", i, SlLen(s))), ins)
-			set(ins, Val{Loc: &Loc{kind: locElem, addr: SlArr(s), idx: Arith("+", SlOff(s), i), root: xt.Elem()}})
+			set(ins, Val{Loc: &Loc{kind: locElem, addr: SlArr(s), idx: Sidx(SlOff(s), i), root: xt.Elem()}})
 		case *types.Pointer:
 			if xv.Loc == nil || xv.Loc.kind != locArr {
 				fail("index address of pointer to array that is not a local temporary")
